@@ -360,9 +360,17 @@ impl Sys {
         ok
     }
 
-    fn restart(&mut self) {
-        self.node = self.world.restart(&self.node_id);
-        self.handler = make_handler(&self.node, self.proto, self.peer_id, self.dbid);
+    /// false: the signer cannot be restored from its store (the restore panics)
+    fn restart(&mut self) -> bool {
+        let (world, id) = (&self.world, self.node_id);
+        match catch_unwind(AssertUnwindSafe(|| world.restart(&id))) {
+            Ok(n) => {
+                self.node = n;
+                self.handler = make_handler(&self.node, self.proto, self.peer_id, self.dbid);
+                true
+            }
+            Err(_) => false,
+        }
     }
 
     /// which holder commitment number does this point / secret belong to (small range)
@@ -591,8 +599,8 @@ fn do_op(sys: &mut Sys, rng: &mut Rng, extremes: bool, script: Option<(u64, u64)
                 (format!("GetSecret {}", n), json!(["get_secret", n]), r)
             }
             2 => {
-                sys.restart();
-                ("Restart".into(), json!("restart"), Obs::ok())
+                let ok = sys.restart();
+                ("Restart".into(), json!("restart"), if ok { Obs::ok() } else { Obs::abort() })
             }
             3 => {
                 // a channel request on a stub
@@ -1120,8 +1128,8 @@ fn do_op(sys: &mut Sys, rng: &mut Rng, extremes: bool, script: Option<(u64, u64)
             ("SetupRefused".into(), json!(["setup_refused_by_policy", which, wire]), r)
         }
         _ => {
-            sys.restart();
-            ("Restart".into(), json!("restart"), Obs::ok())
+            let ok = sys.restart();
+            ("Restart".into(), json!("restart"), if ok { Obs::ok() } else { Obs::abort() })
         }
     }
 }
@@ -1140,7 +1148,9 @@ struct Monitor {
 
 fn run(args: &Args) {
     // panics inside the code under test are observations (Abort), not noise
-    std::panic::set_hook(Box::new(|_| {}));
+    if std::env::var("VERIF_SHOW_PANICS").is_err() {
+        std::panic::set_hook(Box::new(|_| {}));
+    }
     let mut rng = Rng::new(args.seed ^ 0xc4a7);
     let mut kinds: std::collections::BTreeMap<String, (u64, u64, u64)> = Default::default();
     let mut n_viol = 0u64;
@@ -1190,6 +1200,9 @@ fn run(args: &Args) {
                 if !d.is_empty() {
                     mon.violations.push(format!("C10: refused {} changed: {}", op, d.join("; ")));
                 }
+            }
+            if o.st == "Abort" && op == "Restart" {
+                mon.violations.push("C11: the signer cannot be restored from its store (restore panics)".to_string());
             }
             if o.st != "Abort" && op != "Restart" {
                 let mut d = restart_gap(&sys.world, &sys.node);
